@@ -11,8 +11,8 @@ from harness.lib.coqterm import cjson, cstr, cexn, clist, copt, cZ
 ID = 'C06'
 CASE_TYPE = 'C06.case'
 EXTRA_IMPORTS = 'From PJ Require Import Model.Msg.\n'
-RULE = ('parse cases: the full product of per-member alphabets for request (5x13x9x10), response (5x16x8x11) and error '
-        '(11x8x9) objects, non-object inputs of every JSON type, batches of <=3 elements over 6 element documents, '
+RULE = ('parse cases: the full product of per-member alphabets for request (5x13x9x10), response (5x16x8x14) and error '
+        '(14x8x9) objects, non-object inputs of every JSON type, batches of <=3 elements over 6 element documents, '
         'batch-level error objects; history cases: every id sequence of length <=4 over {null,1,2,"1"} under every '
         'grouping into append/extend operations, for BatchRequest and BatchResponse. distinct = distinct (kind, input); '
         'non-trivial = the input is an object or array (reaches the member checks) / the history has >=2 operations')
@@ -28,8 +28,8 @@ M = [A, 'm', '', 1, None, True, [], {}, 'a.b']
 P = [A, [], [1], [1, 2], {}, {'a': 1}, None, 1, 'x', False]
 R = [A, None, 0, '', [], {}, False, 1]
 E = [A, None, 0, '', [], {}, {'code': 1, 'message': 'm'}, {'code': 0, 'message': '', 'data': None},
-     {'code': -32601, 'message': 'x', 'data': [1]}, {'code': '1', 'message': 'm'}, {'code': 1}]
-EC = [A, None, 0, 1, -1, -32700, 2 ** 70, True, 1.0, 1.5, '1']
+     {'code': -32601, 'message': 'x', 'data': [1]}, {'code': '1', 'message': 'm'}, {'code': 1}, {'code': [], 'message': 'm'}, {'code': {}, 'message': 'm'}, {'code': 1, 'message': []}]
+EC = [A, None, 0, 1, -1, -32700, 2 ** 70, True, 1.0, 1.5, '1', [], {}, [1]]      # incl. unhashable values
 EM = [A, None, '', 'm', 0, True, [], {}]
 ED = [A, None, 0, '', [], {}, False, 1.5, {'k': [1]}]
 SCALARS = [None, True, False, 0, 1, 1.5, 'x', '', [], [1], {}]
